@@ -551,41 +551,62 @@ func machine(rt *rapid.T, sub, test string, pool []obj, allowDup bool) {
 		}
 		return out
 	}
+	// handler lists the caller keeps and passes again later (Use(list...), Unuse(list...), the same list on the other
+	// side): what a list means is what the caller put into it, whatever Use and Unuse were handed before
+	type keptList struct {
+		objs []obj
+		hs   []core.PluginHandler
+	}
+	var kept []keptList
+	handlersOf := func(objs []obj, label string, rt *rapid.T) []core.PluginHandler {
+		if len(kept) > 0 && rapid.IntRange(0, 2).Draw(rt, label+"reuse") == 0 {
+			for _, k := range kept {
+				if names(k.objs) == names(objs) {
+					return k.hs
+				}
+			}
+		}
+		hs := make([]core.PluginHandler, len(objs))
+		for i, o := range objs {
+			hs[i] = o.h
+		}
+		if len(kept) < 6 {
+			kept = append(kept, keptList{objs, hs})
+		}
+		return hs
+	}
+	drawObjs := func(rt *rapid.T, label string) []obj {
+		if len(kept) > 0 && rapid.IntRange(0, 2).Draw(rt, label+"kept") == 0 {
+			return kept[rapid.IntRange(0, len(kept)-1).Draw(rt, label+"which")].objs
+		}
+		return drawSubset(rt, pool, label)
+	}
 	rt.Repeat(map[string]func(*rapid.T){
 		"useClient": func(rt *rapid.T) {
-			objs := filterNew(cm, drawSubset(rt, pool, "objs"))
+			objs := filterNew(cm, drawObjs(rt, "objs"))
 			if len(objs) == 0 {
 				rt.Skip("all already installed")
 			}
-			hs := make([]core.PluginHandler, len(objs))
-			for i, o := range objs {
-				hs[i] = o.h
-			}
+			hs := handlersOf(objs, "h", rt)
 			r.client.Use(hs...)
 			cm.use(objs)
 			cmF.use(objs)
 			hist = append(hist, "client.Use("+names(objs)+")")
 		},
 		"useService": func(rt *rapid.T) {
-			objs := filterNew(sm, drawSubset(rt, pool, "objs"))
+			objs := filterNew(sm, drawObjs(rt, "objs"))
 			if len(objs) == 0 {
 				rt.Skip("all already installed")
 			}
-			hs := make([]core.PluginHandler, len(objs))
-			for i, o := range objs {
-				hs[i] = o.h
-			}
+			hs := handlersOf(objs, "h", rt)
 			r.service.Use(hs...)
 			sm.use(objs)
 			smF.use(objs)
 			hist = append(hist, "service.Use("+names(objs)+")")
 		},
 		"unuseClient": func(rt *rapid.T) {
-			objs := drawSubset(rt, pool, "objs")
-			hs := make([]core.PluginHandler, len(objs))
-			for i, o := range objs {
-				hs[i] = o.h
-			}
+			objs := drawObjs(rt, "objs")
+			hs := handlersOf(objs, "h", rt)
 			r.client.Unuse(hs...)
 			for _, o := range objs {
 				if installed(cm, o) && len(cm.inv)+len(cm.io) >= 3 {
@@ -599,11 +620,8 @@ func machine(rt *rapid.T, sub, test string, pool []obj, allowDup bool) {
 			hist = append(hist, "client.Unuse("+names(objs)+")")
 		},
 		"unuseService": func(rt *rapid.T) {
-			objs := drawSubset(rt, pool, "objs")
-			hs := make([]core.PluginHandler, len(objs))
-			for i, o := range objs {
-				hs[i] = o.h
-			}
+			objs := drawObjs(rt, "objs")
+			hs := handlersOf(objs, "h", rt)
 			r.service.Unuse(hs...)
 			for _, o := range objs {
 				if installed(sm, o) && len(sm.inv)+len(sm.io) >= 3 {
